@@ -182,4 +182,5 @@ class ConcatenatedObject(Concatenated, ObjectBase):
                 continue
 
             self.concatenator.remove_entity(child)
-            self._children.remove(child)
+            if child in self._children:
+                self._children.remove(child)
